@@ -112,7 +112,7 @@ def gen_wf(r):
     cmd = r.choice(['PRIVMSG', 'NOTICE', '001', 'CAP', 'x', gen_middle(r).lstrip('@') or 'Q'])
     if cmd[:1] in '@:':
         cmd = 'C' + cmd
-    nargs = r.choice([0, 0, 1, 1, 2, 3, 5, 15])
+    nargs = r.choice([0, 0, 1, 1, 2, 3, 5, 15, 16, 17, 18, 25, 40])
     args = [gen_middle(r) for _ in range(max(0, nargs - 1))]
     if nargs:
         t = gen_trailing(r)
@@ -272,7 +272,11 @@ def explore(ctx, n_wf, n_near, n_raw, n_esc, corpus_lines=()):
         if not all(valid_unicode(x) for x in [pfx, cmd] + list(args) + list(tags) + [v for v in tags.values() if v]):
             return
         try:
-            m = ircmsgs.IrcMsg(prefix=pfx, command=cmd, args=tuple(args), server_tags=dict(tags))
+            if not tags and r.random() < 0.5:
+                # the server_tags keyword left at its default
+                m = ircmsgs.IrcMsg(prefix=pfx, command=cmd, args=tuple(args))
+            else:
+                m = ircmsgs.IrcMsg(prefix=pfx, command=cmd, args=tuple(args), server_tags=dict(tags))
             s = str(m)
         except (AssertionError, ircmsgs.MalformedIrcMsg):
             return
